@@ -4,8 +4,8 @@ from .gen_zone import civil_of_seconds, days_from_civil, fmt_cs
 from .common import I64_MIN, I64_MAX
 
 LIB = ["%Y", "%m", "%d", "%e", "%H", "%M", "%S", "%z", "%Z", "%s", "%%", "%Ez", "%E*z", "%:z", "%::z", "%:::z",
-       "%E0S", "%E1S", "%E3S", "%E9S", "%E15S", "%E18S", "%E19S", "%E1024S", "%E*S", "%E0f", "%E1f", "%E6f", "%E15f",
-       "%E18f", "%E*f", "%E4Y", "%ET", "%U", "%W", "%u", "%w"]
+       "%E0S", "%E1S", "%E3S", "%E9S", "%E14S", "%E15S", "%E16S", "%E17S", "%E18S", "%E19S", "%E1024S", "%E*S", "%E0f", "%E1f", "%E6f", "%E15f",
+       "%E16f", "%E17f", "%E18f", "%E19f", "%E*f", "%E4Y", "%ET", "%U", "%W", "%u", "%w"]
 LIBC = ["%a", "%A", "%b", "%B", "%c", "%C", "%D", "%F", "%g", "%G", "%h", "%I", "%j", "%n", "%p", "%r", "%R", "%t",
         "%T", "%V", "%x", "%X", "%y", "%Ec", "%EC", "%Ex", "%EX", "%Ey", "%EY", "%Od", "%Oe", "%OH", "%OI", "%Om",
         "%OM", "%OS", "%Ou", "%OU", "%OV", "%Ow", "%OW", "%Oy", "%k", "%l", "%P"]
@@ -254,6 +254,34 @@ def gen_c09(tier, rng):
                     ("2020", "%Y%"), ("2020", "%Y%E"), ("2020x", "%Y%Ex"), ("1.5", "%E*S"), ("1.", "%E*S"), (".5", "%E*f"), ("5", "%E3f"), ("x", "%E*f")]:
         for zid in (ids[0], ids[-1]):
             cases.append("parse %s %s %s" % (zid, hx(fm), hx(inp)))
+    # week numbers with weekdays: %U/%W with %w/%u (expected instant = midnight of that date in UTC)
+    import datetime
+    utcid = fixed_ids()[-1]
+    for _ in range(400 if tier == "quick" else 20000):
+        y = rng.choice([1970, 2000, 2001, 2004, 2006, 2012, 2017, 2018, 2023, 2024, 2030, 1900, 2100, rng.randint(1600, 2400)])
+        doy = rng.choice([1, 2, 3, 4, 5, 6, 7, 8, rng.randint(1, 365), 360, 361, 362, 363, 364, 365])
+        dt = datetime.date(y, 1, 1) + datetime.timedelta(days=doy - 1)
+        if dt.year != y:
+            continue
+        wd_sun0 = (dt.weekday() + 1) % 7
+        yday = dt.timetuple().tm_yday - 1
+        U = (yday + 7 - wd_sun0) // 7
+        W = (yday + 7 - (wd_sun0 + 6) % 7) // 7
+        t = days_from_civil(dt.year, dt.month, dt.day) * 86400
+        cases.append("parse %s %s %s EXP %d 0" % (utcid, hx("%Y %U %w"), hx("%d %02d %d" % (y, U, wd_sun0)), t))
+        cases.append("parse %s %s %s EXP %d 0" % (utcid, hx("%Y-W%W-%u"), hx("%d-W%02d-%d" % (y, W, wd_sun0 if wd_sun0 else 7)), t))
+        cases.append("parse %s %s %s EXP %d 0" % (utcid, hx("%W %u %Y"), hx("%d %d %d" % (W, wd_sun0 if wd_sun0 else 7, y)), t))
+    # twelve-hour clock through strptime (%I, %p)
+    for h24 in range(24):
+        h12 = h24 % 12 or 12
+        ap = "AM" if h24 < 12 else "PM"
+        t = days_from_civil(2021, 6, 15) * 86400 + h24 * 3600 + 7 * 60 + 9
+        cases.append("parse %s %s %s EXP %d 0" % (utcid, hx("%Y-%m-%d %I:%M:%S %p"), hx("2021-06-15 %02d:07:09 %s" % (h12, ap)), t))
+        cases.append("parse %s %s %s EXP %d 0" % (utcid, hx("%p %I:%M:%S %Y-%m-%d"), hx("%s %02d:07:09 2021-06-15" % (ap, h12)), t))
+    # %s wins over everything else; fraction dropped
+    for v in (0, 1, -1, 1234567890, -62135596800):
+        cases.append("parse %s %s %s EXP %d 0" % (ids[0], hx("%s %Y-%m-%d %E*S"), hx("%d 2020-02-30 59.5" % v) if False else hx("%d 2020-02-03 59.5" % v), v))
+        cases.append("parse %s %s %s EXP %d 0" % (ids[0], hx("%Y %s"), hx("1999 %d" % v), v))
     # %E4Y: exactly four characters, -999 .. 9999 (expectations from the calendar)
     def e4(y):
         return "%04d" % y if y >= 0 else "-%03d" % (-y)
@@ -305,7 +333,7 @@ def gen_c18(tier, rng):
         for c in sorted(v for v in vals if lo2 <= v <= hi2):
             cases.append("split %s %d" % (T, c))
             cases.append("tconv %s %d" % (T, c))
-            f = rng.choice(["%Y-%m-%dT%H:%M:%E*S", "%E0S|%E1S|%E3S|%E6S|%E9S|%E12S|%E15S|%E18S", "%E*f|%E3f|%E15f", "%H:%M:%S %s", "%E*S"])
+            f = rng.choice(["%Y-%m-%dT%H:%M:%E*S", "%E0S|%E1S|%E3S|%E6S|%E9S|%E12S|%E14S|%E15S|%E16S|%E17S|%E18S|%E19S", "%E*f|%E1f|%E3f|%E14f|%E15f|%E16f|%E18f", "%H:%M:%S %s", "%E*S"])
             cases.append("tfmt %s %d %s" % (T, c, hx(f)))
         # join / parse at and beyond the representation's limits
         secs = {0, 1, -1, 59, 60, 61, -59, -60, -61, 3599, 3600, 3601, -3599, -3600, -3601, I64_MAX, I64_MIN, I64_MAX - 59, I64_MIN + 59}
